@@ -46,8 +46,13 @@ def execute(case):
           "returned_input": True, "nodes_after": [], "edges_after": [], "other_attrs_changed": False, "labels": [], "order_realised": False}
     orc = Oracle()
 
+    lim_arg = limit
+    if limit is not None and case.get("np_limit"):
+        import numpy as np
+        lim_arg = np.int64(limit)             # a size limit computed with numpy is an integer too
+
     def go():
-        return gcmpy.MPCC(G) if limit is None else gcmpy.MPCC(G, limit)
+        return gcmpy.MPCC(G) if limit is None else gcmpy.MPCC(G, lim_arg)
     try:
         with watchdog(60):
             if case["rng"][0] == "seed":
@@ -124,7 +129,7 @@ def run(chk):
                 orders = big_clique_orders(es, nodes, 24 if thorough else 6)
                 for od in orders:
                     traces.append(execute({"nodes": nodes, "edges": es, "limit": limit, "rng": ("order", od)}))
-                traces.append(execute({"nodes": nodes, "edges": es, "limit": limit, "rng": ("seed", rng.randrange(1 << 30))}))
+                traces.append(execute({"nodes": nodes, "edges": es, "limit": limit, "rng": ("seed", rng.randrange(1 << 30)), "np_limit": len(traces) % 3 == 0}))
     # histories: cover, move one edge (vertex and edge counts unchanged) or change only the limit, cover again
     for n in (3, 4) + ((5,) if thorough else ()):
         nodes = list(range(n))
@@ -154,7 +159,7 @@ def run(chk):
             ids = [7 + 11 * k for k in range(n)]
             rng.shuffle(ids)
         traces.append(execute({"nodes": ids, "edges": [(ids[a], ids[b]) for a, b in es], "limit": rng.choice([-1, 0, 2, 3, 4, 5, 7]),
-                               "rng": ("seed", rng.randrange(1 << 30))}))
+                               "rng": ("seed", rng.randrange(1 << 30)), "np_limit": i % 4 == 0}))
     from . import stub
     for i in range(100 if thorough else 25):
         jds = stub.random_jds(rng, "f_mix4", rng.choice([8, 14, 20]), 2, zero_frac=0.2)
